@@ -650,6 +650,55 @@ fn do_op(b: &Built, t: usize, name: &str, c: usize) {
 			let s = debug_obj(o);
 			std::hint::black_box(&s);
 		}
+		("access", o) => {
+			// child(), as_ref(), iter(): accessors that must not touch any lock
+			let n = match o {
+				CollObj::Boxed(c) => {
+					let a: &[Item] = c.as_ref();
+					c.child().len() + a.len() + c.iter().count()
+				}
+				CollObj::Ref(c) => {
+					let a: &[Item] = c.as_ref();
+					c.child().len() + a.len() + c.iter().count()
+				}
+				CollObj::Retry(c) => {
+					let a: &[Item] = c.as_ref();
+					c.child().len() + a.len() + c.iter().count()
+				}
+				_ => 0,
+			};
+			std::hint::black_box(n);
+		}
+		("dupcheck", o) => {
+			// the checked constructors (sort + duplicate check) over references to this very collection
+			let item = match o {
+				CollObj::Single(l) => Some(Item::L(l)),
+				CollObj::Owned(x) => Some(Item::O(x)),
+				CollObj::Boxed(x) => Some(Item::B(x)),
+				CollObj::Ref(x) => Some(Item::F(x)),
+				CollObj::Retry(x) => Some(Item::T(x)),
+				CollObj::Pois(x) => Some(Item::P(x)),
+				CollObj::Invalid => None,
+			};
+			if let Some(it) = item {
+				let two = |it: &Item| -> Item {
+					match it {
+						Item::L(x) => Item::L(x),
+						Item::O(x) => Item::O(x),
+						Item::B(x) => Item::B(x),
+						Item::F(x) => Item::F(x),
+						Item::T(x) => Item::T(x),
+						Item::P(x) => Item::P(x),
+					}
+				};
+				let b = Boxed::try_new(vec![two(&it)]).is_some();
+				let d = Boxed::try_new(vec![two(&it), two(&it)]).is_some();
+				let v = vec![two(&it)];
+				let r = RefC::try_new(unsafe { &*(&v as *const Vec<Item>) }).is_some();
+				let t = Retry::try_new(vec![two(&it), two(&it)]).is_some();
+				res = format!("{}{}{}{}", b as u8, d as u8, r as u8, t as u8);
+			}
+		}
 		("is_poisoned", CollObj::Pois(p)) => res = p.is_poisoned().to_string(),
 		("clear_poison", CollObj::Pois(p)) => p.clear_poison(),
 		(n, _) => panic!("harness: operation {n} not applicable"),
